@@ -256,7 +256,15 @@ def callee(n):
         return None
     if f.startswith("<"):
         return f
-    return base_name(f)
+    b = base_name(f)
+    for a, c in CANON_PREFIX:
+        if b.startswith(a):
+            return c + b[len(a):]
+    return b
+
+
+# inherent methods are printed with the re-exported type path; normalise to the defining crate
+CANON_PREFIX = (("std::result::Result::", "core::result::Result::"), ("std::option::Option::", "core::option::Option::"))
 
 
 def is_call(n, *names):
